@@ -24,7 +24,8 @@ RULE = ('Generated full sessions on dense markets: start anywhere 1995-2039 with
         'dated <= that date (NaN before the first). Non-trivial = burn-in strictly inside the range with >= 1 '
         'scheduled instant before it and >= 1 at/after it and >= 1 fill.'
         ' Round-5 reach: a third of the sessions hold a second funded portfolio in the same account (part of the account equity the curve reports); every recorded allocation row must equal the weights the alpha model returned at that rebalance (0 for other assets).'
-        " Round-10 reach: a third of the sessions hand curve and allocations to JSONStatistics (benchmark on the later half of the dates) first and the session's equity curve is read again afterwards; spare weekday keywords.")
+        " Round-10 reach: a third of the sessions hand curve and allocations to JSONStatistics (benchmark on the later half of the dates) first and the session's equity curve is read again afterwards; spare weekday keywords."
+        " Round-11 reach: session portfolio id `master`; weights with many decimals (1/3, 0.5172413); the other mode's sizing keyword passed too.")
 ASSUMPTIONS = [
     'scheduled instants and the business-day grid both come from the independent calendar, so a wrong schedule class '
     'is reported here as well as by C13 (deliberate: a session that derives the wrong schedule does not trade at the '
